@@ -18,7 +18,7 @@ var vtEv = []string{"e0", "e1", "e2", "e3", "e4", "e5"}
 // consumer receiving at the scheduler's pace: folding what arrives gives the same view as folding everything sent,
 // and old values chain per id.
 func VT_C09_MergeExcessFold() {
-	k := vt.Bound("events", 3, 4)
+	k := vt.Bound("events", 4, 5)
 	idNames := []string{"x", "y"}
 	truth := map[string]vtView{}
 	in := make(chan any)
